@@ -11,6 +11,7 @@ Definition safe_rd (st : state) (PC : cid -> Prop) (PR : rid -> Prop) (PI : item
   | RObj c => PC c
   | RAttr r => PR r
   | RName _ r => PR r
+  | RMask => False
   end.
 
 Record Agree (st : state) (D' : defs) (inp' : list (item * val))
@@ -171,7 +172,7 @@ Proof.
       rewrite (IHb _ _ _ _ _ _ Db Kb Hrest). exact H.
   - (* body *)
     intros me args locs rest r ds H Hk Hs. destruct rest as [|s more]; simpl in H |- *; [exact H|].
-    destruct s as [e|e h].
+    destruct s as [e|e h|e fc].
     + destruct (dr_expr g (defs_of st) (input_data st) me args locs e) as [ra d1] eqn:Da.
       destruct ra as [v1|k|]; [| |inversion H; subst; contradiction].
       2:{ inversion H; subst. now rewrite (IHe _ _ _ _ _ _ Da Hk Hs). }
@@ -198,6 +199,21 @@ Proof.
         -- inversion H; subst.
            rewrite (IHe _ _ _ _ _ _ Da Ek (Forall_app_l _ _ _ Hs)), Ek.
            now rewrite (IHe _ _ _ _ _ _ Dh Hk (Forall_app_r _ _ _ Hs)).
+    + (* SFin: a failure in it marks the reads, which are then not safe *)
+      destruct (dr_expr g (defs_of st) (input_data st) me args locs e) as [ra d1] eqn:Da.
+      destruct ra as [v1|k|]; [| |inversion H; subst; contradiction].
+      * destruct (dr_expr g (defs_of st) (input_data st) me args locs fc) as [rc d2] eqn:Dc.
+        destruct rc as [v2|k2|]; [|inversion H; subst; inversion Hs as [|? ? Hx _]; contradiction
+                                  |inversion H; subst; contradiction].
+        destruct (dr_body g (defs_of st) (input_data st) me args (locs ++ [v1]) more) as [rb d3] eqn:Db.
+        inversion H; subst rb ds.
+        pose proof (Forall_app_l _ _ _ Hs) as S1. pose proof (Forall_app_r _ _ _ Hs) as S23.
+        rewrite (IHe _ _ _ _ _ _ Da I S1).
+        rewrite (IHe _ _ _ _ _ _ Dc I (Forall_app_l _ _ _ S23)).
+        now rewrite (IHb _ _ _ _ _ _ Db Hk (Forall_app_r _ _ _ S23)).
+      * destruct (dr_expr g (defs_of st) (input_data st) me args locs fc) as [rc d2] eqn:Dc.
+        destruct rc as [v2|k2|]; inversion H; subst; try contradiction;
+          inversion Hs as [|? ? Hx _]; contradiction.
 Qed.
 
 (** the form used below: the own reads of a safe held element *)
